@@ -219,29 +219,40 @@ def count_skeletons(n):
 
 # ---------------------------------------------------------------- F2: selection bundles
 
-def family_f2(rng, count, nmax=4, max_shared=3, max_eventless=2, prios=(-1, 0, 1, 2)):
+def family_f2(rng, count, nmax=4, max_shared=3, max_eventless=2, prios=(-1, 0, 1, 2), big=0.35, orth=0.5):
     """Skeletons with n<=nmax; on each transition-capable state up to `max_shared` transitions on the
     one shared event 1 and up to `max_eventless` eventless ones, random priorities, oracle guards.
     Eventless transitions are always oracle-guarded (otherwise they loop forever)."""
     sks = [sk for n in range(1, nmax + 1) for sk in skeletons(n)]
+    osks = [sk for sk in sks if 'orthogonal' in sk[0]]
     out = []
     tries = 0
     while len(out) < count and tries < count * 50:
         tries += 1
-        kind, parent, initial, memory = rng.choice(sks)
-        c = new_chart(kind, parent, initial, memory)
+        isbig = rng.random() < big
+        if isbig:
+            # larger charts with nested orthogonal states (three or more transitions at once)
+            c = random_tree(rng, rng.randint(5, 8), allow_history=rng.random() < 0.2,
+                            allow_final=False, p_orth=0.6)
+            kind = c['kind']
+        else:
+            kind, parent, initial, memory = rng.choice(osks if rng.random() < orth else sks)
+            c = new_chart(kind, parent, initial, memory)
         n = c['n']
         trans = []
         g = 0
+        pg = 0.35 if isbig else 0.8
         for s in range(1, n + 1):
             if kind[s - 1] not in TRANS_KINDS:
                 continue
             for (evid, mx) in ((1, max_shared), (0, max_eventless)):
                 k = rng.choice([0, 1, 1, 2, 3][:mx + 2]) if mx else 0
                 k = min(k, mx)
+                if isbig:
+                    k = min(k, 2) if evid else (1 if rng.random() < 0.15 else 0)
                 for _ in range(k):
                     tg = rng.choice([0] + [t for t in range(1, n + 1) if wf_transition(c, s, t)])
-                    guarded = evid == 0 or rng.random() < 0.8
+                    guarded = evid == 0 or rng.random() < pg
                     if guarded:
                         g += 1
                     trans.append(mk_trans(s, tg, evid, rng.choice(prios), 'oracle' if guarded else 'none'))
@@ -254,9 +265,112 @@ def family_f2(rng, count, nmax=4, max_shared=3, max_eventless=2, prios=(-1, 0, 1
     return out
 
 
+def family_nested(rng, count, max_oracle=5):
+    """Nested orthogonal states with one shared event: three or more transitions enabled at once,
+    in regions of different orthogonal states (pairwise checks, orders, nested conflicts)."""
+    out = []
+    while len(out) < count:
+        kind, parent = ['orthogonal'], [0]
+
+        def add(k, p):
+            kind.append(k)
+            parent.append(p)
+            return len(kind)
+
+        regions = rng.randint(2, 3)
+        for _ in range(regions):
+            r = rng.random()
+            if r < 0.5:
+                q = add('orthogonal', 1)
+                for _ in range(rng.randint(2, 3)):
+                    if rng.random() < 0.25:
+                        cc = add('compound', q)
+                        add('basic', cc)
+                    else:
+                        add('basic', q)
+            elif r < 0.85:
+                q = add('compound', 1)
+                for _ in range(rng.randint(1, 2)):
+                    add('basic', q)
+            else:
+                add('basic', 1)
+        n = len(kind)
+        if n > 10:
+            continue
+        initial = [0] * n
+        for s in range(1, n + 1):
+            if kind[s - 1] == 'compound':
+                initial[s - 1] = rng.choice([i + 1 for i in range(n) if parent[i] == s])
+        perm = list(range(1, n + 1))
+        rng.shuffle(perm)
+        m = {old: new for old, new in zip(range(1, n + 1), perm)}
+        m[0] = 0
+        k2, p2, i2 = [None] * n, [0] * n, [0] * n
+        for s in range(1, n + 1):
+            k2[m[s] - 1] = kind[s - 1]
+            p2[m[s] - 1] = m[parent[s - 1]]
+            i2[m[s] - 1] = m[initial[s - 1]]
+        c = new_chart(k2, p2, i2, [0] * n)
+        trans = []
+        g = 0
+        for s in range(1, n + 1):
+            leaf = not children(c, s)
+            if rng.random() < (0.85 if leaf else 0.25):
+                tg = rng.choice([0, 0] + [t for t in range(1, n + 1) if wf_transition(c, s, t)])
+                guarded = rng.random() < 0.3 and g < max_oracle
+                g += guarded
+                trans.append(mk_trans(s, tg, 1, rng.choice([0, 0, 1]), 'oracle' if guarded else 'none'))
+        if len(trans) < 3:
+            continue
+        c['trans'] = trans
+        c['events'] = [1, 2]
+        assert wf(c), c
+        out.append(c)
+    return out
+
+
+def family_hist(rng, count, nmin=6, nmax=9, extra=6):
+    """Larger charts with history states below orthogonal/compound ancestors; each transition has its
+    own event.  Transitions into every history state from outside, out of its ancestors, and random ones."""
+    out = []
+    while len(out) < count:
+        c = random_tree(rng, rng.randint(nmin, nmax), allow_history=True, allow_final=rng.random() < 0.3,
+                        p_orth=0.45)
+        n = c['n']
+        hs = [s for s in range(1, n + 1) if c['kind'][s - 1] in HISTORY]
+        if not hs:
+            continue
+        pairs = []
+        for h in hs:
+            srcs = [s for s in range(1, n + 1) if wf_transition(c, s, h)]
+            rng.shuffle(srcs)
+            pairs += [(s, h) for s in srcs[:2]]
+            p = c['parent'][h - 1]
+            for a in [p] + ancestors(c, p):
+                tg = [t for t in range(1, n + 1) if wf_transition(c, a, t) and t not in descendants(c, a)]
+                if tg and rng.random() < 0.6:
+                    pairs.append((a, rng.choice(tg)))
+            inner = [s for s in descendants(c, p) if c['kind'][s - 1] in TRANS_KINDS]
+            for s in inner[:3]:
+                tg = [t for t in range(1, n + 1) if wf_transition(c, s, t) and t != h]
+                if tg:
+                    pairs.append((s, rng.choice(tg)))
+        srcs = [s for s in range(1, n + 1) if c['kind'][s - 1] in TRANS_KINDS]
+        for _ in range(extra):
+            s = rng.choice(srcs)
+            tg = [t for t in range(1, n + 1) if wf_transition(c, s, t)]
+            pairs.append((s, rng.choice(tg)))
+        pairs = list(dict.fromkeys(pairs))[:14]
+        c['trans'] = [mk_trans(s, t, i + 1) for i, (s, t) in enumerate(pairs)]
+        c['events'] = list(range(1, len(pairs) + 2))
+        if wf(c):
+            out.append(c)
+    return out
+
+
 # ---------------------------------------------------------------- F3: seeded random, richer charts
 
-def random_tree(rng, n, allow_history=True, allow_final=True):
+def random_tree(rng, n, allow_history=True, allow_final=True, p_orth=0.34):
     """Random WF skeleton with n states, parent(i) < i not required: labels are shuffled afterwards."""
     for _ in range(1000):
         parent = [0] + [rng.randint(1, i - 1) for i in range(2, n + 1)]
@@ -264,7 +378,7 @@ def random_tree(rng, n, allow_history=True, allow_final=True):
         kind = [None] * n
         for s in range(1, n + 1):
             if kids[s]:
-                kind[s - 1] = rng.choice(['compound', 'compound', 'orthogonal'])
+                kind[s - 1] = 'orthogonal' if rng.random() < p_orth else 'compound' 
         for s in range(1, n + 1):
             if kind[s - 1] is None:
                 pk = kind[parent[s - 1] - 1] if parent[s - 1] else None
